@@ -48,6 +48,14 @@ CHECKS = {
             "loops, epsilon and parallel edges), all label permutations in the thorough tier; each instance settled exactly.",
             "Trusted: TLC, projection. Symbols restricted to alphanumeric strings (the property's plain-token domain).",
             "DESIGN.md section 3 C06"),
+    "C08": ("TLA+ grammar generator (CFGGen) enumerated by TLC, every grammar constructed through the public "
+            "constructor and probed with contains / in / generate_epsilon on all words up to L plus words with unknown "
+            "terminals; answers judged by TraceCFG against the least-fixpoint bounded language of CFGSem",
+            "Exhaustive within small constants (all grammars over <=2|3 variables, <=3|4 productions, bodies <=2|3: "
+            "epsilon, unit, long, left/right/self recursive productions, useless symbols, start symbol without "
+            "productions) under several hash seeds and name pools; the derivability oracle is itself model-checked "
+            "against bounded leftmost rewriting (DerivOK).",
+            "Trusted: TLC, projection. Membership is compared on all words up to L=4|5 only.", "DESIGN.md section 3 C08"),
 }
 
 NOT_YET = "check not built yet in this round (see DESIGN.md section 9, build order); no claim is made"
